@@ -6,6 +6,7 @@ From BBF Require Import Base.Prelude Base.Names Base.Bits Spec.Sem
      Model.Expr Model.Table Model.LibBdd Model.Bdd
      Proofs.ExprProofs Proofs.TableProofs Proofs.QuantProofs Proofs.NfProofs Proofs.DdProofs Proofs.BddProofs Proofs.BddOps
      Proofs.ConvProofs Proofs.RenderProofs Proofs.EnumProofs.
+From BBF Require Import Model.Lexer Model.Parser Model.Display Model.Render Model.Csv Model.Prog Proofs.ProgProofs Proofs.ConvChain.
 Theorem C01_E_T : forall e, wf_table (table_of_expr e) /\ t_inputs (table_of_expr e) = literals e /\ forall v, tsem (table_of_expr e) v = sem v e.
 Proof. exact table_of_expr_spec. Qed.
 Print Assumptions C01_E_T.
@@ -43,3 +44,33 @@ Example C01_T_B_witness :
   let t := {| t_inputs := [[97%N]; [98%N]]; t_outputs := [false; false; false; true] |} in
   wf_table t /\ exists b, bdd_of_table t = Ok b /\ b_image b = [true; true; true; true].
 Proof. exact bdd_of_table_witness. Qed.
+
+(* ---- any chain of conversions ---- *)
+
+(* for every path of conversions that does not take the table -> diagram step (D1), from every well-formed object:
+   the end object is well-formed and denotes the same function at every assignment, declares no new input;
+   the chain never panics and can fail only with the too-many-variables error *)
+Theorem C01_chains : forall ks o, owf o -> avoids_D1 (obj_kind o) ks = true ->
+  (forall o', conv_chain ks o = Ok o' -> owf o' /\ (forall v, osem o' v = osem o v) /\ incl (decl o') (decl o)) /\
+  (forall c, conv_chain ks o <> Panic c) /\
+  (forall c, conv_chain ks o = Err c -> c = 1).
+Proof. exact conv_chain_spec. Qed.
+Print Assumptions C01_chains.
+
+(* a conversion into a table or a diagram keeps the declared input set unchanged *)
+Theorem C01_inputs_kept : forall k o o', owf o -> is_D1 k o = false -> k <> KE -> exec_conv k o = Ok o' -> decl o' = decl o.
+Proof. exact conv_step_inputs. Qed.
+Print Assumptions C01_inputs_kept.
+
+(* a single conversion fails only on an expression with more than 65535 variables, with the error value *)
+Theorem C01_failure_only_too_many_variables : forall k o, owf o -> is_D1 k o = false ->
+  (forall c, exec_conv k o <> Panic c) /\
+  (forall c, exec_conv k o = Err c -> c = 1 /\ exists e, o = OE e /\ k = KB /\ too_many (length (literals e)) = true).
+Proof. exact conv_step_fail. Qed.
+Print Assumptions C01_failure_only_too_many_variables.
+
+Example C01_chain_example :
+  let e := And [Lit [97%N]; Not (Lit [98%N])] in
+  avoids_D1 KE [KB; KE; KT; KE; KB; KT] = true /\
+  exists o', conv_chain [KB; KE; KT; KE; KB; KT] (OE e) = Ok o' /\ decl o' = [[97%N]; [98%N]].
+Proof. split; [reflexivity|]. eexists. split; reflexivity. Qed.
